@@ -44,8 +44,15 @@ RPC_EXEMPT = {'next_from_generator': 'legacy stub: no server binding and no'
 
 
 def run(ctx: Ctx):
-  for r in (r1, r2, r3, r4, r5, r6, r7):
+  for r in (r1, r2, r3, r4, r5, r6, r7, r9):
     ctx.guard(r)
+  from mlmverif.props import c04
+  from mlmverif.props._queue import model as qmodel
+  ctx.include('R-C14-8', '"a server that is shutting down answers with a'
+              ' retriable timeout rather than hanging": no handler blocks on'
+              ' the prefetch queue while holding the generator lock the stop'
+              ' path needs (R-C04-4 lock order / no wait under a second lock)',
+              c04.r4, qmodel(ctx), min_instances=3)
 
 
 def bound_table(repo) -> dict[str, FuncInfo | str]:
@@ -570,11 +577,76 @@ def r7(ctx: Ctx):
   ctx.floor(rule, 6, n)
 
 
+def r9(ctx: Ctx):
+  rule = 'R-C14-9'
+  ctx.rule(rule, '"raises the same exception type and message as evaluating it'
+           ' locally": the classifier the client uses to rewrite an error into'
+           ' its own transport diagnostic (is_timeout -> "Try longer timeout'
+           ' on <client>") recognises transport status codes only — it never'
+           ' matches a Python exception class, so an exception raised BY the'
+           ' remote expression (incl. its own TimeoutError) is re-raised'
+           ' unchanged')
+  fi = ctx.repo.func(CU, 'is_timeout')
+  n = 0
+  bad = None
+  for x in ast.walk(fi.node):
+    if isinstance(x, ast.Call) and unparse(x.func) in ('isinstance', 'issubclass'):
+      bad = x
+    if isinstance(x, ast.Compare) and any(isinstance(o, (ast.Is, ast.Eq)) for o in x.ops) and 'type(' in unparse(x):
+      bad = x
+  uses_code = any(isinstance(x, ast.Call) and unparse(x.func) == 'getattr' and len(x.args) >= 2
+                  and isinstance(x.args[1], ast.Constant) and x.args[1].value == 'code' for x in ast.walk(fi.node)) or any(
+                      isinstance(x, ast.Attribute) and x.attr == 'code' for x in ast.walk(fi.node))
+  n += 1
+  if bad is not None or not uses_code:
+    ctx.fail(rule, fi, 'is_timeout: decided by the transport status code only',
+             f'is_timeout classifies by `{unparse(bad)[:50] if bad is not None else "something else than the status code"}`:'
+             ' a TimeoutError raised by the remote expression itself is taken for'
+             ' a transport deadline and replaced by the client\'s "Try longer'
+             ' timeout" message — remote and local evaluation no longer raise'
+             ' the same message', node=bad or fi.node)
+  else:
+    ctx.ok(rule, fi, 'is_timeout looks at the status code only', fi.node)
+  # the rewriting handlers consult that classifier
+  for qn in ('CourierClient.get_result', 'CourierClient.async_get_result'):
+    g = ctx.repo.try_func(CU, qn)
+    if g is None:
+      continue
+    n += 1
+    rewrites = [x for x in ast.walk(g.node) if isinstance(x, ast.Raise) and isinstance(x.exc, ast.Call)
+                and unparse(x.exc.func) == 'TimeoutError']
+    guarded = all(any(isinstance(p_, ast.If) and 'is_timeout(' in unparse(p_.test)
+                      for p_ in _ancestors(g.node, r_)) for r_ in rewrites)
+    if rewrites and guarded:
+      ctx.ok(rule, g, f'{qn}: rewrite only under is_timeout(e)', rewrites[0])
+    elif rewrites:
+      ctx.fail(rule, g, f'{qn}: rewrite to the transport diagnostic only under is_timeout(e)',
+               'a remote exception is replaced by the client\'s timeout message'
+               ' without consulting the transport classifier', node=rewrites[0])
+  ctx.floor(rule, 2, n)
+
+
+def _ancestors(root, node):
+  from mlmverif.core import parent_map
+  pm = parent_map(root)
+  q = pm.get(node)
+  while q is not None:
+    yield q
+    q = pm.get(q)
+
+
 from mlmverif.selfcheck import B, OK  # noqa: E402
 
 _S = 'chainables/courier_server.py'
 _U = 'utils/courier_utils.py'
 VARIANTS = [
+    B('is-timeout-matches-python-timeouts', _U,
+      "  return getattr(e, 'code', 0) == 4", "  return isinstance(e, TimeoutError) or getattr(e, 'code', 0) == 4",
+      'R-C14-9'),
+    B('next-batch-blocks-under-generator-lock', _S,
+      '      result = self._generator.get_batch(batch_size, block=True)',
+      '      with self._generator_lock:\n        result = self._generator.get_batch(batch_size, block=True)',
+      'R-C14-8'),
     B('shutdown-flag-cleared-only-with-new-thread', _S,
       '    if self._server is None:\n      self._shutdown_requested = False\n      self._server = courier.Server',
       '    if self._server is None:\n      self._server = courier.Server', 'R-C14-6',
